@@ -24,6 +24,8 @@ type Program struct {
 	// hashes of the source files that were loaded (evidence: regenerated from
 	// the current tree)
 	srcFiles []string
+	// harness files left out because they do not build against the tree
+	dropped []string
 }
 
 const modulePath = "github.com/creachadair/jrpc2"
@@ -95,25 +97,47 @@ func loadProgram(repo, harnessRoot string, only ...string) (*Program, error) {
 		Env: append(os.Environ(), "GOFLAGS=-mod=mod", "GOPROXY=off", "GOSUMDB=off", "GOTOOLCHAIN=local",
 			"CGO_ENABLED=0"),
 	}
-	pkgs, err := packages.Load(cfg, "./...")
-	if err != nil {
-		return nil, err
-	}
-	var errs []string
-	packages.Visit(pkgs, nil, func(p *packages.Package) {
-		for _, e := range p.Errors {
-			errs = append(errs, e.Error())
+	var pkgs []*packages.Package
+	var dropped []string
+	for round := 0; ; round++ {
+		pkgs, err = packages.Load(cfg, "./...")
+		if err != nil {
+			return nil, err
 		}
-	})
-	if len(errs) > 0 {
-		if len(errs) > 20 {
-			errs = errs[:20]
+		var errs []string
+		bad := map[string]bool{}
+		packages.Visit(pkgs, nil, func(p *packages.Package) {
+			for _, e := range p.Errors {
+				errs = append(errs, e.Error())
+				if i := strings.Index(e.Pos, ".go:"); i > 0 {
+					f := e.Pos[:i+3]
+					if _, isHarness := overlay[f]; isHarness && !strings.HasSuffix(f, "zz_verif_prims.go") {
+						bad[f] = true
+					}
+				}
+			}
+		})
+		if len(errs) == 0 {
+			break
 		}
-		return nil, fmt.Errorf("package load errors (harness does not build against the tree):\n%s", strings.Join(errs, "\n"))
+		if len(bad) == 0 || round >= 4 {
+			if len(errs) > 20 {
+				errs = errs[:20]
+			}
+			return nil, fmt.Errorf("package load errors (harness does not build against the tree):\n%s", strings.Join(errs, "\n"))
+		}
+		// a harness file that calls an internal function whose signature the
+		// tree has changed: drop that file (its harnesses become inconclusive)
+		// and keep the harnesses of the other files
+		for f := range bad {
+			delete(overlay, f)
+			delete(ovPaths, f)
+			dropped = append(dropped, filepath.Base(f))
+		}
 	}
 	prog, _ := ssautil.AllPackages(pkgs, ssa.InstantiateGenerics|ssa.SanityCheckFunctions&0)
 	prog.Build()
-	P := &Program{prog: prog, pkgs: map[string]*ssa.Package{}, modPath: modulePath, repo: repo, overlay: ovPaths}
+	P := &Program{prog: prog, pkgs: map[string]*ssa.Package{}, modPath: modulePath, repo: repo, overlay: ovPaths, dropped: dropped}
 	for _, p := range prog.AllPackages() {
 		P.pkgs[p.Pkg.Path()] = p
 	}
